@@ -266,34 +266,6 @@ structure SS where
   exit : Int := 0
   trace : List String := []
 
-def YashModel.Trap.Divert.rank : Divert → Nat
-  | .other => 0
-  | .ret _ => 2
-  | .interrupt _ => 3
-  | .exit _ => 4
-
-def YashModel.Trap.Divert.payload : Divert → Option Int
-  | .other => none
-  | .ret s => s
-  | .interrupt s => s
-  | .exit s => s
-
-def optLe : Option Int → Option Int → Bool
-  | none, _ => true
-  | some _, none => false
-  | some a, some b => a ≤ b
-
-/-- derived `Ord::max` on `Divert` -/
-def YashModel.Trap.Divert.max (a b : Divert) : Divert :=
-  if a.rank < b.rank then b
-  else if b.rank < a.rank then a
-  else if optLe a.payload b.payload then b else a
-
-def mergeDivert : Option Divert → Option Divert → Option Divert
-  | m, none => m
-  | none, t => t
-  | some a, some b => some (a.max b)
-
 /-- trap bodies of the `multi` scripts: `c = kind * 1000 + tag`, `tag % 500 - 200` = the signal -/
 def scriptBody : Body := fun c e t =>
   let tag := c % 1000
@@ -309,9 +281,9 @@ def scriptBody : Body := fun c e t =>
 
 /-- the hook of `Command::execute`: pending traps run after every command -/
 def hook (s : SS) (main : Option Divert) : SS × Option Divert :=
-  let r := runTrapsForCaughtSignals scriptBody false s.traps s.exit
+  let r := afterCommand scriptBody false main s.traps s.exit
   let lines := r.runs.map fun (_, c) => s!"{s.exit}:{encStr (toString (c % 1000))}"
-  ({ traps := r.traps, exit := r.exit, trace := lines.reverse ++ s.trace }, mergeDivert main r.divert)
+  ({ traps := r.traps, exit := r.exit, trace := lines.reverse ++ s.trace }, r.divert)
 
 mutual
 def execCmd : Cmd → SS → SS × Option Divert
